@@ -123,6 +123,11 @@ func (p *parsing) parseSwitch(tok token, end tokenTyp) ast.Node {
 				// before and after the semicolon token:
 				//     switch x := 2; x = y.(type) {
 				assignment, tok = p.parseAssignment(expressions, tok, false, true, true)
+				if len(assignment.Rhs) != 1 {
+					// switch x := 2; x++ {
+					// switch x := 2; a, b = c, d {
+					panic(cannotUseAsValueError(tok.pos, assignment))
+				}
 				ta, ok := assignment.Rhs[0].(*ast.TypeAssertion)
 				// TODO (Gianluca): should error contain the position of the
 				// expression which caused the error instead of the token (as Go
